@@ -299,6 +299,11 @@ func (r *Raft) onSnapshotTaken(t snapTaken) {
 		}
 		if nowCompact > r.log.PrevIndex() {
 			_ = r.compactLog(nowCompact)
+			if r.state == Leader && r.ldr.removeLTE < r.log.PrevIndex() {
+				// log views for repls start at removeLTE.
+				// it must not fall behind what is just removed
+				r.ldr.removeLTE = r.log.PrevIndex()
+			}
 		}
 		if canCompact > nowCompact {
 			// notify repls with new logView
